@@ -559,6 +559,9 @@ pub fn gen_case(seed: u64, shard: u64, run: u64, t: &Tier) -> Option<Case> {
             }
         }
     }
+    if w.chance(0.03) {
+        goal = start;
+    }
     let max_try = match w.below(6) {
         0 => w.below(3),
         1 | 2 => w.range_usize(3, 40),
@@ -594,6 +597,7 @@ fn record(case: &Case, out: &SimOut<Obs>, tally: &mut Tally, scen_hash: u64) {
     tally.evaluations += 1;
     let c = &out.counters;
     tally.bump("sched_steps", c.steps);
+    tally.max("max_sched_steps_in_one_execution", c.steps);
     tally.bump("sched_branching_points", c.branching);
     tally.bump("random_draws", c.n_rng);
     tally.bump("clock_reads", c.n_clock_reads);
